@@ -133,8 +133,8 @@ def _check(rec, st, w, locks, tag):
         rec.v.append({"mech": "P-nonzero-where-W-zero", "what": tag,
                       "W": w.tolist(), "locks": locks.tolist(),
                       "P": out.tolist()})
-    if got.size and (np.max(np.abs(got.sum(0) - 1)) > max(tol, 1e-9) or
-                     np.max(np.abs(got.sum(1) - 1)) > max(tol, 1e-9)):
+    if got.size and not (np.max(np.abs(got.sum(0) - 1)) <= max(tol, 1e-9) and
+                         np.max(np.abs(got.sum(1) - 1)) <= max(tol, 1e-9)):
         rec.v.append({"mech": "P-not-doubly-stochastic", "what": tag,
                       "W": w.tolist(), "locks": locks.tolist(),
                       "P": out.tolist()})
@@ -222,7 +222,7 @@ def _rand(job):
             try:
                 out3 = np.asarray(st.inf_retis(w3, locks.copy()), dtype=float)
                 rec.ev["rescale_pairs"] = rec.ev.get("rescale_pairs", 0) + 1
-                if np.max(np.abs(out3 - out)) > 1e-9:
+                if not (np.max(np.abs(out3 - out)) <= 1e-9):
                     rec.v.append({
                         "mech": "P-changes-under-row-rescaling",
                         "what": f"max diff {np.max(np.abs(out3 - out)):.3g}",
@@ -237,7 +237,7 @@ def _rand(job):
         st._last_prob = None
         if not (job.get("big") and n > 12):
             pr = np.asarray(st.prob, dtype=float)
-            if np.max(np.abs(pr - out)) > 1e-12:
+            if not (np.max(np.abs(pr - out)) <= 1e-12):
                 rec.v.append({"mech": "prob-property-differs", "what":
                               "state.prob != inf_retis(abs(state), locks)",
                               "W": w2.tolist(), "locks": locks.tolist()})
